@@ -1121,7 +1121,14 @@ impl<'a, 'b, W: Write> Serializer for &'a mut YamlSerializer<'b, W> {
             // column 0 (or the root); elsewhere, and for a body that would not be deeper than an
             // inline `- - `, quote.
             let shallow_inline_seq = self.indent_step < 2 && !was_map_value && base > 0;
-            if (needs_indicator && (indent_n > 9 || base > 0)) || shallow_inline_seq {
+            // A block scalar is written raw: CR / NEL would be read as line breaks, NUL ends the
+            // scanner's input, other controls are not printable. Such content is quoted, also when
+            // the block style was requested explicitly (LitStr / FoldStr).
+            let has_controls = v
+                .chars()
+                .any(|c| c.is_control() && c != '\n' && c != '\t');
+            if (needs_indicator && (indent_n > 9 || base > 0)) || shallow_inline_seq || has_controls
+            {
                 // Reset state and fall through to quoted string handling
                 self.pending_str_style = None;
                 self.pending_str_from_auto = false;
